@@ -48,25 +48,66 @@ def loop_validation(ctx, res: Result, fi: FuncInfo, iter_name: str, count_term: 
 
 
 def photon_number_equal(ctx, res: Result, fi: FuncInfo, must_mention: list[str], rule="V-equal-photon-number", label=None) -> None:
-    """`ns = [s.n_photons for s in <expr mentioning names>]; if min(ns) != max(ns): raise`"""
-    ok = []
-    for n in walk_no_nested(fi.node):
-        if isinstance(n, ast.If) and any(isinstance(b, ast.Raise) for b in n.body):
-            t = src(n.test).replace(" ", "")
-            if t.startswith("min(") and "!=max(" in t:
-                nm = n.test.left.args[0]
-                if isinstance(nm, ast.Name):
-                    defs = [a for a in walk_no_nested(fi.node) if isinstance(a, ast.Assign) and isinstance(a.targets[0], ast.Name) and a.targets[0].id == nm.id and a.lineno < n.lineno]
-                    defs.sort(key=lambda a: a.lineno)
-                    if defs:
-                        d = defs[-1].value
-                        names = {x.id for x in ast.walk(d) if isinstance(x, ast.Name)}
-                        if "n_photons" in src(d):
-                            ok.append(names)
+    """A refusing guard establishes that all states of <names> carry one photon number.  Recognised sufficient forms over a
+    collection X of photon numbers: `min(X) != max(X)`, `len(set(X)) != 1` / `> 1`, `any(n != X[0] for n in X)`.  A guard
+    that compares the *set* of numbers of one collection with that of another (`set(A) != set(B)`) is recognised as
+    insufficient: mixed numbers pass when both sides are mixed alike."""
+    from ..inline import inlined
+    fn = inlined(fi.node)
+
+    def resolve(e, depth=0):
+        """names of the collections the photon numbers are taken from"""
+        if depth > 4:
+            return set()
+        if isinstance(e, ast.Name):
+            defs = [a.value for a in ast.walk(fn) if isinstance(a, ast.Assign) and len(a.targets) == 1 and isinstance(a.targets[0], ast.Name) and a.targets[0].id == e.id]
+            out = set()
+            for d in defs:
+                out |= resolve(d, depth + 1)
+            return out
+        if "n_photons" in src(e):
+            out = set()
+            for g in [x for x in ast.walk(e) if isinstance(x, ast.comprehension)]:
+                out |= {x.id for x in ast.walk(g.iter) if isinstance(x, ast.Name)}
+            return out
+        return set()
+
+    ok, weak = [], []
+    for n in ast.walk(fn):
+        if not (isinstance(n, ast.If) and any(isinstance(b, ast.Raise) for b in n.body)):
+            continue
+        t = n.test
+        if not isinstance(t, ast.Compare) or len(t.ops) != 1:
+            continue
+        l, r, op = t.left, t.comparators[0], t.ops[0]
+        def call(e, nm):
+            return isinstance(e, ast.Call) and src(e.func) == nm and e.args
+        if call(l, "min") and call(r, "max") and isinstance(op, ast.NotEq) and src(l.args[0]) == src(r.args[0]):
+            ok.append(resolve(l.args[0]))
+        elif call(l, "max") and call(r, "min") and isinstance(op, ast.NotEq) and src(l.args[0]) == src(r.args[0]):
+            ok.append(resolve(l.args[0]))
+        elif call(l, "len") and isinstance(r, ast.Constant) and r.value == 1 and isinstance(op, (ast.NotEq, ast.Gt)):
+            inner = l.args[0]
+            if isinstance(inner, ast.Call) and src(inner.func) == "set" and inner.args:
+                inner = inner.args[0]
+            ok.append(resolve(inner))
+        elif isinstance(op, ast.NotEq) and "n_photons" in src(fn) and (resolve(l) or resolve(r)) and (isinstance(l, (ast.Set, ast.SetComp, ast.Name)) or call(l, "set")) and (isinstance(r, (ast.Set, ast.SetComp, ast.Name)) or call(r, "set")) and resolve(l) and resolve(r):
+            weak.append((n, resolve(l) | resolve(r)))
+    any_guard = any("n_photons" in src(n.test) or any(x for x in ast.walk(n.test) if isinstance(x, ast.Name) and resolve(x)) for n in ast.walk(fn) if isinstance(n, ast.If) and any(isinstance(b, ast.Raise) for b in n.body))
     inst = label or fi.qualname
     for want in must_mention:
-        good = any(set(want.split("+")) <= names for names in ok)
-        res.add(good, rule, f"{inst}:{want}", fi.site(), fi.qualname, f"photon numbers of {want} are required to be equal", f"no check that all of {want} carry the same photon number", construct=f"{inst}:{want}")
+        names_w = set(want.split("+"))
+        good = any(names_w <= names for names in ok)
+        if good:
+            res.ok(rule, f"{inst}:{want}", fi.site(), fi.qualname, f"photon numbers of {want} are required to be equal")
+            continue
+        wk = [w for w in weak if names_w & w[1]]
+        if wk:
+            res.bad(rule, f"{inst}:{want}", fi.site(wk[0][0]), fi.qualname, f"`{src(wk[0][0].test)[:80]}` compares the set of photon numbers of one collection with that of another: states of different photon number pass as long as both sides are mixed alike, so {want} are not required to carry one photon number", construct=src(wk[0][0].test)[:120])
+        elif any_guard:
+            res.frozen(False, rule, f"{inst}:{want}", fi.site(), fi.qualname, "", f"a refusal on photon numbers exists but not in a recognised form that makes all of {want} equal", construct=f"{inst}:{want}")
+        else:
+            res.bad(rule, f"{inst}:{want}", fi.site(), fi.qualname, f"no check that all of {want} carry the same photon number", construct=f"{inst}:{want}")
 
 
 def _resolve(fi: FuncInfo, e, depth=0):
